@@ -30,7 +30,8 @@ theorem DbInv.setEnt {s s' : State} (h : DbInv s) (e : Nat) (f : Ent → Ent)
     simp only [hye, ↓reduceIte]
     exact h y hy ha
 
-theorem newEnt_DbInv (s : State) (k h seed : Nat) (r : Option Str) (hd : DbInv s) : DbInv (newEnt s k h seed r).1 := by
+theorem newEnt_DbInv (s : State) (k h seed : Nat) (r : Option Str) (hd : DbInv s) (subs : List Nat) :
+    DbInv (newEnt s k h seed r subs).1 := by
   unfold newEnt
   split
   · exact hd
@@ -76,10 +77,16 @@ theorem dropContainer_DbInv (s : State) (br : Nat) (hd : DbInv s) : DbInv (dropC
     simp only [hc, ↓reduceIte]
     exact hd y hy ha
 
+theorem dropAll_DbInv : ∀ (l : List Nat) (s : State), DbInv s → DbInv (dropAll s l)
+  | [], _, h => h
+  | a :: r, s, h => by
+    simp only [dropAll, List.foldl_cons]
+    exact dropAll_DbInv r _ (dropContainer_DbInv s a h)
+
 theorem step_DbInv (s : State) (op : Op) (hd : DbInv s) : DbInv (step s op).1 := by
   cases op with
-  | add k h seed => exact newEnt_DbInv _ _ _ _ _ hd
-  | ins k name h seed => exact newEnt_DbInv _ _ _ _ _ hd
+  | add k h seed => exact newEnt_DbInv _ _ _ _ _ hd _
+  | ins k name h seed => exact newEnt_DbInv _ _ _ _ _ hd _
   | unlink k e =>
     simp only [step]
     split
@@ -103,13 +110,71 @@ theorem step_DbInv (s : State) (op : Op) (hd : DbInv s) : DbInv (step s op).1 :=
     · exact hd
     · rename_i s1 h1; exact destroyEnt_DbInv _ _ (unlinkCore_DbInv h1 hd)
   | destroy e => exact destroyEnt_DbInv _ _ hd
-  | copy e k h seed =>
+  | copy e k h subs seed =>
     simp only [step]
     split
     · split
-      · exact newEnt_DbInv _ _ _ _ _ hd
+      · split
+        · exact newEnt_DbInv _ _ _ _ _ hd _
+        · exact hd
       · exact hd
     · exact hd
+  | addL k r h subs seed => exact newEnt_DbInv _ _ _ _ _ hd _
+  | explode e news seed =>
+    rcases explode_cases s e news seed with ⟨er, h0⟩ | ⟨x, name, k, b, s', hx, hal, hr, ho', hsp, hb, hshape, hfresh, htexts, hcore, hstep⟩
+    · rw [h0]; exact hd
+    · rw [hstep]
+      obtain ⟨s2, h2, rfl⟩ := explodeCore_parts hcore
+      refine DbInv.setEnt (s := destroyEnt s2 e) ?_ e (fun y => { y with subs := y.subs.drop (y.subs.length - 1) })
+        (fun _ ha => ⟨ha, rfl⟩) rfl
+      apply destroyEnt_DbInv
+      refine unlinkCore_DbInv h2 ?_
+      intro y hy ha
+      simp only [explodeMid, List.mem_append] at hy
+      rcases hy with hy | hy
+      · exact hd y hy ha
+      · exact (explodeEnts_props s k _ news _ y hy).2.2
+  | audit seed =>
+    simp only [step]; split
+    · have h2 : DbInv (auditLayouts (auditSpaces s)) := by
+        obtain ⟨bl, hbl⟩ := auditLayouts_eq (auditSpaces s)
+        exact (dropAll_DbInv (orphanBlocks (auditSpaces s)) (auditSpaces s) (hd.of_ents rfl)).of_ents (by rw [hbl])
+      intro y hy ha
+      have hy : y ∈ (auditEntities (auditLayouts (auditSpaces s))).ents := hy
+      simp only [auditEntities, List.mem_map] at hy
+      obtain ⟨z, hz, rfl⟩ := hy
+      split at ha
+      · simp at ha
+      · rename_i hnt
+        simp only [hnt]
+        exact h2 z hz ha
+    · exact hd
+  | addEntry t n seed =>
+    simp only [step]; split
+    · exact hd
+    · split
+      · exact hd.of_ents rfl
+      · exact hd
+  | delEntry t n => simp only [step]; split <;> first | exact hd | exact hd.of_ents rfl
+  | dupEntry t a b seed =>
+    simp only [step]; split
+    · exact hd
+    · split
+      · exact hd.of_ents rfl
+      · exact hd
+  | newGroup n h seed =>
+    simp only [step]; split
+    · exact hd
+    · split
+      · exact hd.of_ents rfl
+      · exact hd
+  | setGroup n ms =>
+    simp only [step]; split
+    · exact hd
+    · split
+      · exact hd.of_ents rfl
+      · exact hd
+  | delGroup n => simp only [step]; split <;> first | exact hd | exact hd.of_ents rfl
   | purge =>
     intro x hx ha
     simp only [step, List.mem_map] at hx
